@@ -194,7 +194,11 @@ def seeded(rng, alphabet, weights=None, max_len=12, ids=None, progress_p=0.5, ca
             case["stallUntil"] = su + 1 if su == D else su
     if case["progress"] and rng.random() < 0.3:
         case["cbRaises"] = sorted(set(rng.randint(0, 4) for _ in range(rng.randint(1, 3))))
+        if rng.random() < 0.3:
+            case["warnErr"] = True  # the host turns warnings into errors
         case["cbExc"] = rng.randint(0, 10)  # which exception class the failing callback raises
+    if rng.random() < 0.05:
+        case["warnErr"] = True
     return place(case)
 
 
@@ -209,7 +213,7 @@ def shrink_candidates(case):
         yield dict(case, tokenKind="plain")
     if case.get("writer") == "stalled":
         yield dict(case, writer="blocked")
-    for key in ("cbRaises", "hasToken", "params", "writer", "debug", "eos", "idSubclass", "cbAction"):
+    for key in ("cbRaises", "hasToken", "params", "writer", "debug", "warnErr", "eos", "idSubclass", "cbAction"):
         if case.get(key):
             c = dict(case)
             c.pop(key)
